@@ -20,6 +20,36 @@ use std::time::Duration;
 pub enum SinkOutcome {
     Accept,
     Refuse(io::ErrorKind, String),
+    /// Refuse with `scripted_refusal(shape, kind, msg)` (typed payloads, raw OS errors, a cadence error as payload ...).
+    RefuseShape(u64, io::ErrorKind, String),
+}
+
+/// Payload type of its own for scripted refusals (an application's sink may wrap anything in an io::Error).
+#[derive(Debug)]
+pub struct ScriptedPayload(pub String);
+
+impl std::fmt::Display for ScriptedPayload {
+    fn fmt(&self, f: &mut std::fmt::Formatter<'_>) -> std::fmt::Result {
+        write!(f, "{}", self.0)
+    }
+}
+
+impl std::error::Error for ScriptedPayload {}
+
+/// A refusal of shape `shape`: 0/1 message string, 2 typed payload, 3 a cadence `MetricError` (invalid-input kind) as
+/// payload - what a relaying sink passes on when a second client refused -, 4 raw OS error, 5 an io::Error nested in
+/// an io::Error. Whatever the shape, the caller must get an I/O-kind error carrying exactly this error.
+pub fn scripted_refusal(shape: u64, kind: io::ErrorKind, msg: &str) -> io::Error {
+    match shape % 6 {
+        2 => io::Error::new(kind, ScriptedPayload(msg.to_string())),
+        3 => {
+            let inner: MetricError = MetricError::from((ErrorKind::InvalidInput, "scripted: u64 overflow"));
+            io::Error::new(kind, inner)
+        }
+        4 => io::Error::from_raw_os_error([11, 111, 90, 105, 32, 2, 13, 4][(crate::rng::hash_str(msg) % 8) as usize]),
+        5 => io::Error::new(kind, io::Error::new(io::ErrorKind::Other, msg.to_string())),
+        _ => io::Error::new(kind, msg.to_string()),
+    }
 }
 
 #[derive(Default, Debug)]
@@ -78,6 +108,10 @@ impl MetricSink for RecSink {
             SinkOutcome::Refuse(kind, msg) => {
                 g.emits.push((metric.to_string(), false));
                 Err(io::Error::new(kind, msg))
+            }
+            SinkOutcome::RefuseShape(shape, kind, msg) => {
+                g.emits.push((metric.to_string(), false));
+                Err(scripted_refusal(shape, kind, &msg))
             }
         }
     }
